@@ -4,7 +4,7 @@ import re
 import tracecheck
 
 ARN = "arn:aws:lambda:us-east-1:012345678912:function:test_function"
-BLANK = {"e": "", "j": 0, "badctx": False, "out": "", "body": "empty", "status": 0, "dataok": True, "sid": "", "src": 0}
+BLANK = {"e": "", "j": 0, "badctx": False, "out": "", "body": "empty", "status": 0, "dataok": True, "sid": "", "src": 0, "lines": []}
 
 
 def project(raw_events, scenario, bound=None):
@@ -41,7 +41,7 @@ def project(raw_events, scenario, bound=None):
                 body = "timeout-text"
             else:
                 body = "other"
-            o.update(e="FERet", j=ev["j"], status=ev.get("status", 0), body=body)
+            o.update(e="FERet", j=ev["j"], status=ev.get("status", 0), body=body, lines=list(ev.get("lines") or []))
         else:
             continue
         out.append(o)
